@@ -71,7 +71,8 @@ def val_wire(v):
     if isinstance(v, decimal.Decimal):
         t = v.as_tuple()
         return f"d{t.sign}:{''.join(map(str, t.digits))}:{t.exponent}"
-    raise TypeError(type(v).__name__)
+    # a value of a type no decoder result may have (None, float, ...): rendered, so that it shows as a difference
+    return 'u' + type(v).__name__
 
 
 def dict_wire(d, sort=False, drop_de43=False):
@@ -103,7 +104,8 @@ def exc_kind(ex):
 def de43_expected(cfg, d):
     """what the DE43 processor must add, by applying the live `re` engine to the decoded value"""
     out = {}
-    for key, fc in cfg.items():
+    # elements are decoded in ascending order: with several such elements the later one's entries replace the earlier's
+    for key, fc in sorted(cfg.items(), key=lambda kv: int(kv[0])):
         if fc.get('field_processor') == 'DE43' and ('DE' + key) in d and fc.get('field_processor_config'):
             v = d['DE' + key]
             m = re.match(fc['field_processor_config'], v) if isinstance(v, str) else None
@@ -210,6 +212,15 @@ def gen_config(rng, with_decimal=False, decimal_widths=(3, 6, 8, 12, 15)):
                       field_python_type=rng.choice(['int', 'long']))
         elif r < 0.80:
             fc.update(field_type='FIXED', field_length=rng.choice([1, 2, 3, 4, 6, 8, 12, 15, 24, 40]))
+        elif r < 0.84 and not with_decimal:
+            # the merchant-name processor: with the packaged pattern, with no pattern, with an empty one
+            pat = pkg_config()['43']['field_processor_config']
+            fc.update(field_type='LLVAR', field_length=0, field_processor='DE43')
+            which = rng.randrange(3)
+            if which == 0:
+                fc['field_processor_config'] = pat
+            elif which == 1:
+                fc['field_processor_config'] = ''
         elif r < 0.90:
             fc.update(field_type='LLVAR', field_length=rng.choice([0, 11, 23]))
         else:
@@ -320,6 +331,8 @@ def gen_value(rng, fc, codec, length=None):
     if pyt in ('int', 'long'):
         w = fc['field_length'] if ft not in ('LLVAR', 'LLLVAR') else rng.randrange(1, 19)
         n = rng.choice([0, 10 ** w - 1, rng.randrange(0, 10 ** w)])
+        if w >= 2 and rng.random() < 0.12:
+            n = -rng.choice([1, 10 ** (w - 1) - 1, rng.randrange(1, 10 ** (w - 1))])    # the sign takes one column
         return n, n
     if pyt == 'datetime':
         d = gen_datetime(rng, fc.get('field_date_format', '%y%m%d'))
@@ -391,9 +404,13 @@ def gen_message(rng, cfg, codec, bits=None, with_pds=None, lengths=None):
     if with_pds and carriers:
         n = rng.choice([1, 2, 3, 6, 12])
         tags = rng.sample(range(0, 10000), n)
+        if rng.random() < 0.15 and 0 not in tags:
+            tags[rng.randrange(len(tags))] = 0          # tag 0000, also with an empty value: '0000000' is a sub-element
         chosen = []
         for t in tags:
             vl = rng.choice([0, 1, 3, 20, rng.randrange(0, 120), rng.randrange(0, 993)])
+            if t == 0 and rng.random() < 0.6:
+                vl = 0
             v = text(rng, codec, vl, rng.choice(['any', 'digits']))
             if len(ref_pds_chunks(chosen + [(t, v)])) <= len(carriers):   # total within the carriers' capacity
                 chosen.append((t, v))
@@ -486,7 +503,8 @@ def ref_render(fc, v, codec):
                     v = int(v)
                 except ValueError:
                     raise RefError('numeric element given as text that int() does not accept')
-            s = str(v).rjust(fc['field_length'], '0')
+            s = str(abs(v)).rjust(max(0, fc['field_length'] - (1 if v < 0 else 0)), '0')     # zero fill AFTER the sign
+            s = ('-' if v < 0 else '') + s
         elif pyt == 'decimal':
             # positional notation, zero-filled after the sign up to the configured width (none for a width of 0)
             s = format(v, 'f')
